@@ -49,6 +49,12 @@ def cases(tier, seed):
                "supplied": bool(rng.random() < 0.3), "sseed": int(rng.integers(0, 10**6)),
                "source": "mpas" if i % 5 == 4 else "topology", "layout": ux.LAYOUTS[int(rng.integers(0, 4))] if rng.random() < 0.4 else "C",
                "orphans": int(rng.choice([0, 0, 0, 1, 3])), "touch": [TOUCH[int(j)] for j in rng.choice(len(TOUCH), size=int(rng.integers(0, 4)), replace=False)]}
+    from .. import samplefiles
+
+    for i, (fkind, rel, kw) in enumerate(samplefiles.netcdf_files(tier)):
+        if rel in samplefiles.INCONSISTENT_SOURCE_TABLES:
+            continue  # its own face_links table contradicts its faces: nothing to hold the library to
+        yield {"kind": "sample_file", "file": rel, "kw": kw, "order": i % len(ORDERS)}
 
 
 # other derived quantities a script may ask for before (or between) the incidence tables
@@ -167,6 +173,21 @@ def run_case(ctx, case):
             ctx.observe("tiny_tables")
             if ft["isolated"]:
                 ctx.observe("tiny_with_isolated_face")
+        return
+    if case["kind"] == "sample_file":
+        from .. import samplefiles
+
+        g, m = samplefiles.open_with_model(case["file"], case["kw"])
+        sig = {"supplied": "sample_file", "file": case["file"].split("/")[-1]}
+        check_grid(ctx, g, m.faces, m.n_node, case["order"], sig)
+        for name in TOUCH:
+            try:
+                touch(g, name)
+            except Exception:
+                pass
+        check_grid(ctx, g, m.faces, m.n_node, case["order"], dict(sig, reread="after_all_other_quantities"))
+        ctx.mark_nontrivial()
+        ctx.observe("sample_files")
         return
     m = gen.build(case["mesh"])
     if case.get("orphans") and case.get("source", "topology") != "mpas":
